@@ -18,12 +18,14 @@ func init() {
 		Level: "exploration",
 		Rule: "rate limiter: generated per-source request scripts (times, amounts) merged into one multi-source history (2-12 sources, capacities 1..default, sources <= capacity) on the frozen clock; each source's projected decision sequence (admit/429 and advertised delay) must equal the sequence it gets when run alone on the same clock schedule (differential against the real code); " +
 			"capacity pressure in victim-unambiguous form (creation order = last-use order, distinct expiry seconds): exactly the source nearest to expiry restarts afresh, every other drained source stays rejected; " +
+			"part plans: per-request rate plans (ExtractRates) with different longest periods, so that a tracked source's remembered lifetime grows and shrinks; every decision of a random multi-source history over a full table is predicted by a reference table (entry lifetime = 10 x longest period + 1s from the last request, victim = nearest to expiry, nothing refills during a case); " +
 			"connection limiter: merged controlled start/finish scripts vs the solo run of each source; concurrent variant (race build): one goroutine per source; non-trivial = merged history in which >=2 sources each saw an admission and a rejection; distinct by (rates, capacity, script)",
 		Assumptions: []string{"frozen library clock (hook); the clock is advanced only between requests (at barriers in the concurrent variant)", "overflow shapes whose victim depends on heap tie-breaking are executed but not decided"},
 		Parts: []Part{
 			{Name: "rate", Shards: 8, Fn: c14Rate},
 			{Name: "evict", Shards: 4, Fn: c14Evict},
 			{Name: "lru", Shards: 8, Fn: c14LRU},
+			{Name: "plans", Shards: 4, Fn: c14Plans},
 			{Name: "conn", Shards: 8, Fn: c14Conn},
 			{Name: "rateconc", Race: true, Shards: 4, Fn: c14RateConc},
 		},
@@ -561,4 +563,114 @@ func c14LRU(c *Ctx) {
 		}
 	})
 	c.Require("lru_nontrivial", 2)
+}
+
+// c14Plans: sources move between rate plans whose longest periods differ, so the time a source is remembered (10 x the
+// longest period + 1s after its last request) both grows and shrinks while it is tracked. A reference table predicts
+// every decision: when the table is full a newcomer displaces exactly the tracked source nearest to expiry.
+func c14Plans(c *Ctx) {
+	c.Cases("plans", c.N(600, 20000), func(i int, r *rand.Rand) {
+		capacity := 1 + r.IntN(6)
+		b0, b1 := int64(1+r.IntN(2)), int64(1+r.IntN(3))
+		plans := [][]rateSpec{
+			{{10 * time.Minute, 1, b0}},
+			{{10 * time.Minute, 1, b0}, {2 * time.Hour, 1, b1}},
+		}
+		ttl := []int64{6001, 72001}
+		sets := []*ratelimit.RateSet{mkRateSet(plans[0]), mkRateSet(plans[1])}
+		freeze(baseTime.Add(time.Duration(r.Int64N(1e9))))
+		defer unfreeze()
+		n := new(int)
+		tl, err := ratelimit.New(http.HandlerFunc(func(http.ResponseWriter, *http.Request) { *n++ }), hdrExtractor, sets[0], ratelimit.Capacity(capacity),
+			ratelimit.ExtractRates(ratelimit.RateExtractorFunc(func(req *http.Request) (*ratelimit.RateSet, error) {
+				if req.Header.Get("X-Plan") == "1" {
+					return sets[1], nil
+				}
+				return sets[0], nil
+			})))
+		if err != nil {
+			panic(err)
+		}
+		type entry struct {
+			expiry int64
+			tokens map[time.Duration]int64
+		}
+		model := map[int]*entry{}
+		nsrc := capacity + 1 + r.IntN(3)
+		var script []string
+		evictions, shrinks := 0, 0
+		nops := 30 + r.IntN(60)
+		for q := 0; q < nops; q++ {
+			advance(time.Second + time.Duration(r.IntN(900))*time.Millisecond)
+			src, plan := r.IntN(nsrc), r.IntN(2)
+			if r.IntN(3) == 0 {
+				src = r.IntN(min(nsrc, 2)) // hot sources that keep switching plans
+			}
+			nowU := now().Unix()
+			e := model[src]
+			if e == nil {
+				if len(model) >= capacity {
+					victim, best := -1, int64(1<<62)
+					for s, x := range model {
+						if x.expiry < best {
+							victim, best = s, x.expiry
+						}
+					}
+					delete(model, victim)
+					evictions++
+					script = append(script, sfmt("(s%d forgotten)", victim))
+				}
+				e = &entry{tokens: map[time.Duration]int64{}}
+				model[src] = e
+			}
+			for p := range e.tokens {
+				keep := false
+				for _, x := range plans[plan] {
+					keep = keep || x.Period == p
+				}
+				if !keep {
+					delete(e.tokens, p)
+				}
+			}
+			for _, x := range plans[plan] {
+				if _, ok := e.tokens[x.Period]; !ok {
+					e.tokens[x.Period] = x.Burst
+				}
+			}
+			if ne := nowU + ttl[plan]; ne < e.expiry {
+				shrinks++
+			}
+			e.expiry = nowU + ttl[plan]
+			want := true
+			for _, t := range e.tokens {
+				want = want && t >= 1
+			}
+			if want {
+				for p := range e.tokens {
+					e.tokens[p]--
+				}
+			}
+			req := httptest.NewRequest("GET", "http://x.test/", nil)
+			req.Header.Set("X-Src", sfmt("s%d", src))
+			req.Header.Set("X-Plan", sfmt("%d", plan))
+			before := *n
+			tl.ServeHTTP(httptest.NewRecorder(), req)
+			got := *n == before+1
+			script = append(script, sfmt("s%d/plan%d=%v", src, plan, got))
+			c.Count("plan_decisions_compared", 1)
+			if got != want {
+				c.Violation("plans/decision", sfmt("capacity %d, plans %v: request %d (source s%d, plan %d) admitted=%v, the reference table (lifetime 10 x longest period + 1s from the last request; a newcomer displaces the source nearest to expiry) predicts %v", capacity, plans, q, src, plan, got, want),
+					map[string]any{"capacity": capacity, "plans": plans, "script": script})
+				return
+			}
+		}
+		c.Eval()
+		if evictions >= 1 && shrinks >= 1 {
+			c.Nontrivial(sfmt("plans/%d/%d/%d/%x", capacity, b0, b1, hash64(sfmt("%v", script))))
+			c.Count("plans_nontrivial", 1)
+		}
+		c.Count("plan_evictions", int64(evictions))
+		c.Count("plan_lifetime_shrinks", int64(shrinks))
+	})
+	c.Require("plans_nontrivial", 2)
 }
